@@ -20,8 +20,8 @@
   reported by `isna_array(..., include_none=False)`; `None` is an ordinary value).
   `veq` is NumPy / Python `==` on non-missing values (a parameter).
 
-  Not modelled: the `id(other) == id(self)` shortcut (a parameter `same` of the `…Id` wrappers),
-  the `equal_pairs` id cache of the tree walk (pure optimisation), `eq is False` (NumPy returning
+  Not modelled: the `id(other) == id(self)` shortcut.  The `equal_pairs` id cache of the tree walk
+  is `walkC` / `Level.equalsC` (proved equal to the cache-free `walk` / `Level.equals`); `eq is False` (NumPy returning
   a scalar).  The dtype coercion of `.values` in the third operand path is the parameter `coerce`.
 -/
 import SFModel.Basic
@@ -149,6 +149,26 @@ def walk (veq : α → α → Bool) (o : Opts) :
     else walk veq o fuel (a.targets.reverse ++ sa) (b.targets.reverse ++ sb)
   | _ + 1, sa, sb => sa.isEmpty && sb.isEmpty
 
+/-- The loop as coded, WITH the `equal_pairs` cache: `ida` / `idb` give `id(level.index)` of a node
+    of self / other (nodes sharing one Index object — e.g. the sibling leaves built by
+    `IndexHierarchy.from_product` — have the same id).  `pair = (id(level_self.index),
+    id(level_other.index))`; a pair found in the cache skips `index.equals`; a verified pair is added. -/
+def walkC (veq : α → α → Bool) (o : Opts) (ida idb : Level ν δ κ α → Nat) :
+    Nat → List (Nat × Nat) → List (Level ν δ κ α) → List (Level ν δ κ α) → Bool
+  | 0, _, _, _ => false
+  | fuel + 1, cache, a :: sa, b :: sb =>
+    let found := cache.contains (ida a, idb b)
+    if !found && !(a.index.equals veq b.index o) then false
+    else
+      let cache' := if found then cache else (ida a, idb b) :: cache
+      if a.leaf && b.leaf then walkC veq o ida idb fuel cache' sa sb
+      else if a.leaf || b.leaf then false
+      else walkC veq o ida idb fuel cache' (a.targets.reverse ++ sa) (b.targets.reverse ++ sb)
+  | _ + 1, _, sa, sb => sa.isEmpty && sb.isEmpty
+
+/-- `id()` is sound: nodes with the same id hold the same Index object -/
+def IdSound (idf : Level ν δ κ α → Nat) : Prop := ∀ x y, idf x = idf y → x.index = y.index
+
 /-- `IndexLevel.equals` -/
 def Level.equals (veq : α → α → Bool) (a b : Level ν δ κ α) (o : Opts) : Bool :=
   if o.compareClass && a.cls != b.cls then false
@@ -157,6 +177,15 @@ def Level.equals (veq : α → α → Bool) (a b : Level ν δ κ α) (o : Opts)
   else if (a.leaf || a.targets.isEmpty) && (b.leaf || b.targets.isEmpty) then
     a.index.equals veq b.index o
   else walk veq o (a.size + 1) [a] [b]
+
+/-- `IndexLevel.equals` as coded, with the identity cache (starts empty) -/
+def Level.equalsC (veq : α → α → Bool) (ida idb : Level ν δ κ α → Nat) (a b : Level ν δ κ α) (o : Opts) : Bool :=
+  if o.compareClass && a.cls != b.cls then false
+  else if a.len != b.len then false
+  else if a.depth != b.depth then false
+  else if (a.leaf || a.targets.isEmpty) && (b.leaf || b.targets.isEmpty) then
+    a.index.equals veq b.index o
+  else walkC veq o ida idb (a.size + 1) [] [a] [b]
 
 structure IH (ν δ κ α : Type) where
   levels : Level ν δ κ α
